@@ -106,7 +106,7 @@ fn main() {
     }
 
     ctx.prop_split("generated", "reader-case", ctx.n(6_000, 1_500_000), ctx.parts(), case(10).boxed(), run_case);
-    ctx.prop("generated-short", "reader-case", ctx.n(6_000, 1_000_000), case(3), run_case);
+    ctx.prop_split("generated-short", "reader-case", ctx.n(6_000, 1_000_000), ctx.parts(), case(3).boxed(), run_case);
     if buf >= 1024 && buf <= (1 << 22) {
         ctx.prop_cfg("long-inputs-at-buffer-boundary", "reader-case", ctx.n(500, 8_000), 200, long_case(buf), run_case);
     } else {
